@@ -2,6 +2,9 @@
  * line protocol of FRAMEWORK.md.  See lean/Driver/C07.lean for the output format.
  *
  *   ins K | rem K | find K | walk in|pre|post | destroy | count
+ *   reins K : aatree_insert() once more with the node object that is ALREADY linked in the
+ *             tree for key K (a present-key insert with the caller's own, linked node);
+ *             nothing is called when K is absent (reins=0)
  *
  * observable: result flag, tree->count, "AA level rules hold" and "height <= 2*log2(n+1)"
  * as inspected through the public struct AANode{left,right,level}, in-order keys obtained
@@ -243,6 +246,18 @@ static void op_ins(long long k)
 		mut_line(linked ? "ins=1" : "ins=0", 0);
 }
 
+/* insert a present key again, passing the very node object that is linked in the tree */
+static void op_reins(long long k)
+{
+	struct AANode *r;
+	rel.n = 0;
+	r = aatree_search(&tree, (uintptr_t)(intptr_t)k);
+	if (r)
+		aatree_insert(&tree, (uintptr_t)(intptr_t)k, r);
+	if (!quiet_ops)
+		mut_line(r ? "reins=1" : "reins=0", 0);
+}
+
 static void op_rem(long long k)
 {
 	rel.n = 0;
@@ -280,7 +295,7 @@ static int parse_nat(const char *s, long *out)
 /* perms n ilo ihi jlo jhi: for every insertion order i in [ilo,ihi) and removal order j in
  * [jlo,jhi) of the keys 1..n: fresh tree, insert in order i, remove in order j.  Answers the
  * hashes (observable ## internal) of the op output lines in this order: for each i the n
- * insertion lines once, then for each j the n removal lines. */
+ * insertion lines and n lines `reins 1` .. `reins n` once, then for each j the n removal lines. */
 static int op_perms(char **w)
 {
 	long n, ilo, ihi, jlo, jhi, i, j;
@@ -300,6 +315,8 @@ static int op_perms(char **w)
 			reset();
 			quiet_ops = (j != jlo);
 			for (t = 0; t < n; t++) op_ins(pi[t]);
+			if (!quiet_ops)
+				for (t = 1; t <= n; t++) op_reins(t);
 			quiet_ops = 0;
 			for (t = 0; t < n; t++) op_rem(pj[t]);
 		}
@@ -328,6 +345,8 @@ int main(void)
 			op_ins(k);
 		} else if (nw == 2 && strcmp(w[0], "rem") == 0 && parse_key(w[1], &k)) {
 			op_rem(k);
+		} else if (nw == 2 && strcmp(w[0], "reins") == 0 && parse_key(w[1], &k)) {
+			op_reins(k);
 		} else if (nw == 2 && strcmp(w[0], "find") == 0 && parse_key(w[1], &k)) {
 			struct AANode *r = aatree_search(&tree, (uintptr_t)(intptr_t)k);
 			if (r)
